@@ -439,7 +439,8 @@ def _raw_amplitude_uses(stmts: List[ast.stmt], operand: str) -> List[Tuple[ast.A
                     continue
                 bad.append((p, f"`{norm(p)}` reads a raw amplitude of `{operand}` that is not multiplied by {operand}.params['coefficient']"))
                 continue
-            bad.append((n, f"`{norm(p)[:70]}` uses the raw amplitude map of `{operand}` (not weighted by {operand}.params['coefficient'])"))
+            raise AnalysisError(f"C18f: `{norm(p)[:70]}` uses the amplitude map of `{operand}` in a way the rule has no idiom for; whether the "
+                                f"amplitudes are weighted by the coefficient is undecided")
     return bad
 
 
